@@ -5,13 +5,17 @@ from . import packcoll as pc
 ID = "C06"
 PR = pc.PR
 P = PR + ":RepositoryPackCollection."
+GC = "breezy.bzr.groupcompress_repo"
 FUNCTIONS = [P + "_abort_write_group", P + "_suspend_write_group", P + "_resume_write_group", P + "_commit_write_group",
              P + "_remove_resumed_pack_indices", P + "allocate", P + "_save_pack_names", P + "autopack", P + "_do_autopack",
-             P + "_execute_pack_operations"]
+             P + "_execute_pack_operations", GC + ":GCRepositoryPackCollection._check_new_inventories",
+             GC + ":_build_interesting_key_sets", GC + ":_filter_text_keys"]
 STUBS = ["same record packs / event log as C04 (harness/packcoll.py); _resume_pack (opens index files of the suspended pack "
          "in upload/) is replaced by a stand-in that re-creates the suspended record pack from its token",
          "the sanity checks of _commit_write_group (missing compression parents, _check_new_inventories) answer from a "
-         "symbolic choice"]
+         "symbolic choice in the life-cycle obligations; in check_new_inventories the real _check_new_inventories runs over "
+         "index stubs answering from a table of symbolic revision ids, and chk_map.iter_interesting_nodes (compiled CHK maps) "
+         "is a model of its contract (leaves reachable from the interesting roots and not from the uninteresting ones)"]
 ASSUMPTIONS = ["as C04: finishing a pack and replacing pack-names are atomic effects", "a suspended pack stays in upload/ "
                "under its token until it is resumed"]
 OUTSIDE = ["the content of packs and indices (record packs only carry revision tokens)", "RemoteRepository write groups, "
@@ -146,6 +150,157 @@ def ob_refused(cx):
     cx.observe("events", list(env.events))
 
 
+GC = "breezy.bzr.groupcompress_repo"
+
+
+def ob_check_new_inventories(cx):
+    """GCRepositoryPackCollection._check_new_inventories (+ _build_interesting_key_sets, _filter_text_keys): which of the
+    write group's inventories count as NEW (their texts must be present) and which as parents only.  The new revisions and
+    their parents are symbolic one-byte ids: the solver decides whether a new revision's parent is another new revision,
+    an old revision or a ghost."""
+    G = cx.mod(GC)
+    T = cx.truth
+    n = cx.choose("nrevs", 1, cx.p("nrevs"))
+    revs, parent, inv_present, text_present = [], [], [], []
+    for i in range(n):
+        r = cx.bytes("rev%d" % i, 1, b"pqr")
+        for o in revs:
+            cx.assume(o[0] < r[0])                       # distinct, listed parents-first
+        par = cx.bytes("parent%d" % i, 1, b"GOpqr")      # G: a ghost (no inventory anywhere), O: an old revision
+        cx.assume(par[0] < r[0])
+        cx.assume(T(par == b"G") or T(par == b"O") or any(T(par == o) for o in revs))
+        revs.append(r)
+        parent.append(par)
+        inv_present.append(bool(cx.choose("inv_present%d" % i, 0, 1)))
+        text_present.append(bool(cx.choose("text_present%d" % i, 0, 1)))
+
+    def idx(rev):
+        for i, r in enumerate(revs):
+            if T(r == rev):
+                return i
+        return None
+
+    def has_inventory(rev):
+        i = idx(rev)
+        if i is not None:
+            return inv_present[i]
+        return T(rev == b"O")
+
+    def texts_of(rev):
+        """text keys referenced by the inventory of rev: its own new text and everything its parent's inventory has"""
+        i = idx(rev)
+        if i is None:
+            return []
+        return [revs[i]] + texts_of(parent[i])
+
+    def mapping(pairs):
+        from symx.containers import SymDict
+        return SymDict(pairs) if cx.sym else dict(pairs)
+
+    class InvIndex:
+        @staticmethod
+        def get_parent_map(keys):
+            out = []
+            for key in keys:
+                if has_inventory(key[-1]):
+                    i = idx(key[-1])
+                    out.append((key, ((parent[i],),) if i is not None else ()))
+            return mapping(out)
+
+    class AllPresent:
+        @staticmethod
+        def get_parent_map(keys):
+            return mapping([(k, ()) for k in keys])
+
+    class TextIndex:
+        @staticmethod
+        def get_parent_map(keys):
+            out = []
+            for key in keys:
+                i = idx(key)
+                if i is None or text_present[i]:
+                    out.append((key, ()))
+            return mapping(out)
+
+    class KeyDeps:
+        @staticmethod
+        def get_new_keys():
+            return [(r,) for r in revs]
+
+    class Inv:
+        def __init__(self, rev):
+            self.revision_id = rev
+            me = self
+
+            class Root:
+                @staticmethod
+                def key():
+                    return me.revision_id
+            self.id_to_entry = Root
+            self.parent_id_basename_to_file_id = Root
+
+    class ChkBytes:
+        _index = AllPresent
+        _search_key_func = None
+
+        @staticmethod
+        def without_fallbacks():
+            class Store:
+                pass
+            return Store()
+
+    class Repo:
+        class revisions:
+            class _index:
+                key_dependencies = KeyDeps
+
+        class inventories:
+            _index = InvIndex
+
+        class texts:
+            _index = TextIndex
+        chk_bytes = ChkBytes
+
+        @staticmethod
+        def iter_inventories(ids, ordering):
+            return [Inv(r) for r in ids]
+
+    class ChkMap:
+        @staticmethod
+        def iter_interesting_nodes(store, interesting, uninteresting):
+            """leaves reachable from the interesting roots and not from the uninteresting ones (iter_interesting_nodes'
+            contract), over the harness's inventories: root key = revision id"""
+            dull = []
+            for u in uninteresting:
+                dull += texts_of(u)
+            for r in interesting:
+                items = [(b"name", t) for t in texts_of(r) if not any(T(t == d) for d in dull)]
+                yield object(), items
+
+        @staticmethod
+        def _bytes_to_text_key(b):
+            return b
+    G.chk_map = ChkMap
+
+    class Self:
+        repo = Repo
+    problems = G.GCRepositoryPackCollection._check_new_inventories(Self)
+    missing_inv = [i for i in range(n) if not inv_present[i]]
+    missing_text = [i for i in range(n) if not text_present[i]]
+    if missing_inv:
+        cx.require(len(problems) > 0, "new revision %d has no inventory, yet the write group passes the check" % missing_inv[0])
+        cx.cover("missing_inventory_refused")
+    elif missing_text:
+        cx.require(len(problems) > 0, "the text introduced by new revision %d is missing, yet the write group passes the "
+                   "check (its inventory was treated as a parent-only inventory)" % missing_text[0])
+        cx.cover("missing_text_refused")
+        if any(idx(parent[j]) == missing_text[0] for j in range(n)):
+            cx.cover("missing_text_of_a_new_parent")
+    else:
+        cx.require(len(problems) == 0, "a complete write group is refused: %r" % (problems,))
+        cx.cover("complete_accepted")
+
+
 def obligations(tier):
     q = tier == "quick"
     p = dict(npacks=2 if q else 3, maxcount=12 if q else 15)
@@ -160,4 +315,9 @@ def obligations(tier):
                       "aborted; crash after every prefix of the effects of the final commit"),
         Ob("refused", ob_refused, [PR], p, to, 1, ["refused"], bounds=b + "; commit of a group with missing compression "
            "parents / missing inventories"),
+        Ob("check_new_inventories", ob_check_new_inventories, [(GC, dict(symdict=True))], dict(nrevs=2 if q else 3), to,
+           2 if q else 1, ["missing_inventory_refused", "missing_text_refused", "missing_text_of_a_new_parent", "complete_accepted"],
+           bounds="a write group with <= %d new revisions with one parent each; revisions and parents are symbolic ids (a "
+                  "parent is another new revision, an old revision or a ghost); each new inventory and each new text present "
+                  "or missing" % (2 if q else 3)),
     ]
